@@ -232,7 +232,21 @@ def run(ctx):
             s_ = df.canon(c.prov.call_tree(t), sa_)
             if "tlv_type" in s_ and "PathTrace" in s_:
                 ok8 = True
-        if ok8:
+        # ... and the switch that enables the skip is the path-trace OPTION itself (not "our TLV happened to fit"):
+        # the bool-returning with_ref closure of send_announce returns state.path_trace_ds.enable on every path
+        flag_ok = False
+        flag_rows = []
+        for cb_ in prog.closures_of(sa_, recursive=False):
+            if cb_.local_ty(0)["s"] == "bool":
+                flag_rows = cnd.result_rows(prog, cb_)
+                flag_ok = bool(flag_rows) and all(r_.endswith("path_trace_ds.enable") for (r_, w_) in flag_rows)
+        if ok8 and not flag_ok:
+            rep.violation("TLV-8", sa_.key, "forwarded PATH_TRACE skipped",
+                          "the flag that makes send_announce skip a forwarded PATH_TRACE TLV is %s, not the path-trace option "
+                          "(pathTraceDS.enable): when the own TLV does not fit, the parent's PATH_TRACE is forwarded verbatim, "
+                          "i.e. a path without the instance's own identity is emitted" % ([r_ for (r_, w_) in flag_rows] or "not found"),
+                          where=sa_.loc())
+        elif ok8:
             rep.ok("TLV-8", sa_.key, "forwarded PATH_TRACE skipped", where=sa_.loc())
         else:
             rep.violation("TLV-8", sa_.key, "forwarded PATH_TRACE skipped",
